@@ -219,7 +219,7 @@ def fiber_alpha_l(el, freqs):
     return a * p.length
 
 
-def fiber_event(ev, raman_on, max_ch=12, with_acc=True, contrib=None):
+def fiber_event(ev, raman_on, max_ch=12, with_acc=True, contrib=None, declared=None):
     el, pre, post = ev['el'], ev['pre'], ev['post']
     p = el.params
     n = len(pre['frequency'])
@@ -228,8 +228,12 @@ def fiber_event(ev, raman_on, max_ch=12, with_acc=True, contrib=None):
     pin, pout = dbm(pre['pch']), dbm(post['pch'])
     e = {'k': 'Fiber', 'uid': el.uid, 'attIn': udb(p.att_in), 'conIn': udb(p.con_in), 'conOut': udb(p.con_out),
          'lumped': udb(sum(float(x['loss']) for x in p.lumped_losses)), 'raman': 1 if raman_on else 0,
-         'fresh': 0, 'acc': 1 if with_acc else 0, 'cfg': 0,
+         'fresh': 0, 'acc': 1 if with_acc else 0, 'cfg': 0, 'decl': 0,
          'ch': [{'alphaL': udb(al[k]), 'in': udb(pin[k]), 'out': udb(pout[k])} for k in sel]}
+    if declared and el.uid in declared:
+        # connector figures as DECLARED by the topology document (None = not declared) and the library's Span defaults
+        d_in, d_out, def_in, def_out = declared[el.uid]
+        e.update({'decl': 1, 'conInDecl': udb(d_in), 'conOutDecl': udb(d_out), 'conInDef': udb(def_in), 'conOutDef': udb(def_out)})
     if with_acc:
         d = contrib.get(ev) if contrib else alone_contribution(ev)
         e.update(acc_fields(pre, post, d, sel, sel))
